@@ -93,9 +93,14 @@ mut('C18', 'version', "elif self.version_extra == other.version_extra:\n        
 # ---- C16 ---------------------------------------------------------------------------
 mut('C16', 'sortabledict', "            index += 1\n", "            index += 2\n")
 mut('C16', 'sortabledict', "        if after and (index is not None):", "        if (not after) and (index is not None):")
-mut('C16', 'sortabledict', """                # We are re-locating.
-                del self[key]""", """                # We are re-locating.
-                pass""")
+mut('C16', 'sortabledict', """                del self[key]
+                if (pos_key""", """                if (pos_key""", name='relocation without delete')
+mut('C16', 'sortabledict', """                if (pos_key is not None) and (old_index < index):
+                    # The position of pos_key was looked up before the key
+                    # was removed from in front of it: it has moved down one.
+                    index -= 1
+""", "", name='revert fix: stale position')
+mut('C16', 'sortabledict', "(old_index < index):", "(old_index > index):", name='stale adjust wrong direction')
 mut('C16', 'sortabledict', """            if not replace:
                 raise KeyError('%r is duplicate' % key)
 """, "")
@@ -150,6 +155,59 @@ mut('C19', 'grid', "if set(self.column.keys()) != set(other.column.keys()):", "i
 mut('C19', 'datatypes', "        return (self.latitude == other.latitude) and \\\n               (self.longitude == other.longitude)",
     "        return (self.latitude == other.latitude) or \\\n               (self.longitude == other.longitude)")
 mut('C19', 'datatypes', "REMOVE = RemoveType()", "REMOVE = RemoveType()\nREMOVE_2 = RemoveType()")
+
+# ---- C14 / C15 -----------------------------------------------------------------------
+mut('C14', 'grid', "        return len(self._row)", "        return len(self._row) - 1")
+mut('C14', 'grid', """        if not isinstance(value, dict):
+            raise TypeError('value must be a dict')
+        for val in value.values():
+            self._detect_or_validate(val)
+        self._row.insert(index, value)""", """        if not isinstance(value, dict):
+            raise TypeError('value must be a dict')
+        self._row.insert(index, value)
+        for val in value.values():
+            self._detect_or_validate(val)""", name='insert: write before validation')
+mut('C14', 'grid', """        if not isinstance(value, dict):
+            raise TypeError('value must be a dict')
+        for val in value.values():
+            self._detect_or_validate(val)
+        self._row.insert""", """        for val in value.values():
+            self._detect_or_validate(val)
+        self._row.insert""", name='insert: no TypeError guard')
+mut('C14', 'grid', "self._row.insert(index, value)", "self._row.insert(index + 1, value)")
+mut('C14', 'grid', "result._row=self._row[key]", "result._row=self._row")
+mut('C14', 'grid', "result=Grid(version=self.version,metadata=self.metadata,columns=self.column)", "result=Grid(version=self.version,columns=self.column)")
+mut('C14', 'grid', "            return self._row[key]", "            return self._row[abs(key)]")
+mut('C14', 'grid', """        del self._row[index]
+        self.reindex()""", """        if "id" in self._row[index]:
+            self._index.pop(self._row[index]['id'], None)
+        del self._row[index]""", name='revert fix: delitem')
+mut('C15', 'grid', """        del self._row[index]
+        self.reindex()""", """        if "id" in self._row[index]:
+            self._index.pop(self._row[index]['id'], None)
+        del self._row[index]""", name='revert fix: delitem')
+mut('C15', 'grid', """        self._row[index] = value
+        # Rebuild the id index: the replaced row's entry must go (unless the
+        # same row is still present elsewhere) and the new one must appear.
+        self.reindex()""", """        self._row[index] = value""", name='setitem without reindex')
+mut('C15', 'grid', """        super(Grid, self).extend(values)  # Python 2 compatible :-(
+        # super().extend(values)  # Python 3+ :-)
+        self.reindex()""", """        super(Grid, self).extend(values)  # Python 2 compatible :-(
+        for item in self._row:
+            if "id" in item:
+                self._index[str(item["id"])] = item""", name='revert fix: extend')
+mut('C15', 'grid', """            if not self._index:
+                self.reindex()
+            self._index[str(value["id"])] = value""", """            self._index[str(value["id"])] = value""", name='insert without ensure-index')
+mut('C15', 'grid', 'self._index[str(value["id"])] = value', 'self._index[value["id"]] = value')
+mut('C15', 'grid', "return self._index[str(key)]", "return self._index[key]")
+mut('C15', 'grid', """        self._index = {}
+        for item in self._row:""", """        if self._index is None:
+            self._index = {}
+        for item in self._row:""", name='reindex keeps stale entries')
+mut('C15', 'grid', "return self._index.get(str(index), default)", "return self._index.get(str(index))")
+mut('C15', 'grid', "            result._index=None\n", "            result._index=self._index\n")
+mut('C15', 'zincparser', "    g.extend(map(lambda row: dict(zip(col_meta.keys(), row)), rows))", "    g._row.extend(map(lambda row: dict(zip(col_meta.keys(), row)), rows))")
 
 
 def run(selected):
